@@ -360,6 +360,9 @@ class StoreJudge:
                     got = avail[0]
                     self.v("C06", f"{self.mode} discipline: retrieval {tid} (granted at line {t.gline}) returned item {iid} "
                                   f"(put #{got['seq']}), expected put #{exp}")
+                    if self.family in ("slot", "cbelt"):
+                        self.v("C12", f"exit order: retrieval {tid} took item {iid} (entry #{got['seq']}) although the item of entry #{exp} "
+                                      f"was the one waiting at the exit for it (items leave a conveyor in entry order)", "exit-order")
                     self.c06_on = False
             if e is None: e = avail[0]
             # filter discipline
